@@ -4,9 +4,14 @@ package main
 
 import (
 	"fmt"
+	"go/ast"
+	"go/constant"
 	"go/token"
 	"go/types"
+	"sort"
 	"strings"
+
+	"golang.org/x/tools/go/ssa"
 )
 
 func (p *Prog) lemmaObligations(prop string) []*Obl {
@@ -82,4 +87,130 @@ func (p *Prog) runLemma(l *Lemma) (obls []*Obl) {
 	return e.obls
 }
 
-func (p *Prog) staticObligations(prop string) ([]*Obl, []string) { return nil, nil }
+// metricDefs extracts the names declared in a package's MetricDefinitions literal.
+func (p *Prog) metricDefs(pkgPath string) (counters, gauges map[string]bool, found bool) {
+	counters, gauges = map[string]bool{}, map[string]bool{}
+	for _, ap := range p.astPkgs {
+		if ap.PkgPath != pkgPath {
+			continue
+		}
+		for _, f := range ap.Syntax {
+			ast.Inspect(f, func(n ast.Node) bool {
+				vs, ok := n.(*ast.ValueSpec)
+				if !ok || len(vs.Names) != 1 || vs.Names[0].Name != "MetricDefinitions" || len(vs.Values) != 1 {
+					return true
+				}
+				cl, ok := vs.Values[0].(*ast.CompositeLit)
+				if !ok {
+					return true
+				}
+				found = true
+				for _, el := range cl.Elts {
+					kv, ok := el.(*ast.KeyValueExpr)
+					if !ok {
+						continue
+					}
+					key, _ := kv.Key.(*ast.Ident)
+					arr, _ := kv.Value.(*ast.CompositeLit)
+					if key == nil || arr == nil {
+						continue
+					}
+					for _, d := range arr.Elts {
+						dl, ok := d.(*ast.CompositeLit)
+						if !ok {
+							continue
+						}
+						for _, fe := range dl.Elts {
+							fkv, ok := fe.(*ast.KeyValueExpr)
+							if !ok {
+								continue
+							}
+							if id, ok := fkv.Key.(*ast.Ident); ok && id.Name == "Name" {
+								if bl, ok := fkv.Value.(*ast.BasicLit); ok {
+									name := strings.Trim(bl.Value, "\"")
+									if key.Name == "Counters" {
+										counters[name] = true
+									} else if key.Name == "Gauges" {
+										gauges[name] = true
+									}
+								}
+							}
+						}
+					}
+				}
+				return true
+			})
+		}
+	}
+	return
+}
+
+// staticObligations: syntactic obligations decided over the SSA directly.
+// C20: every IncrementCounter/SetGauge call site passes a constant name that is
+// declared in the emitting package's MetricDefinitions.
+func (p *Prog) staticObligations(prop string) ([]*Obl, []string) {
+	if prop != "C20" {
+		return nil, nil
+	}
+	var out []*Obl
+	var notes []string
+	for _, sp := range p.pkgs {
+		counters, gauges, found := p.metricDefs(sp.Pkg.Path())
+		var fns []*ssa.Function
+		for _, fn := range p.allFuncs {
+			if fn.Pkg == sp {
+				fns = append(fns, fn)
+			}
+		}
+		sort.Slice(fns, func(i, j int) bool { return fnKey(fns[i]) < fnKey(fns[j]) })
+		n := 0
+		for _, fn := range fns {
+			ord := 0
+			for _, b := range fn.Blocks {
+				for _, in := range b.Instrs {
+					ci, ok := in.(ssa.CallInstruction)
+					if !ok || !ci.Common().IsInvoke() {
+						continue
+					}
+					m := ci.Common().Method.Name()
+					if m != "IncrementCounter" && m != "SetGauge" {
+						continue
+					}
+					nt := namedOf(ci.Common().Value.Type())
+					if nt == nil || nt.Obj().Name() != "Collector" {
+						continue
+					}
+					ord++
+					n++
+					o := &Obl{Unit: fnKey(fn), Kind: "static", Labels: []string{"C20.declared"}, Goal: True, Expect: "unsat", Backend: "syntactic", Where: p.fset.Position(in.Pos()).String()}
+					c, isConst := ci.Common().Args[0].(*ssa.Const)
+					name := "<non-constant>"
+					okDecl := false
+					if isConst && c.Value != nil {
+						name = constant.StringVal(c.Value)
+						if m == "IncrementCounter" {
+							okDecl = counters[name]
+						} else {
+							okDecl = gauges[name]
+						}
+					}
+					o.Name = fmt.Sprintf("%s/metric-declared#%d[%s(%s)]", fnKey(fn), ord, m, name)
+					if found && okDecl {
+						o.Status = "proved"
+					} else {
+						o.Status = "refuted"
+						o.Model = fmt.Sprintf("metric name %q passed to %s is not declared in %s.MetricDefinitions (found=%v)", name, m, sp.Pkg.Path(), found)
+						o.MetricName = name
+						o.MetricKind = m
+						o.MetricPkg = sp.Pkg.Path()
+					}
+					out = append(out, o)
+				}
+			}
+		}
+		if n > 0 {
+			notes = append(notes, fmt.Sprintf("%s: %d emitting call sites checked against %d counters / %d gauges", sp.Pkg.Path(), n, len(counters), len(gauges)))
+		}
+	}
+	return out, notes
+}
